@@ -6,6 +6,7 @@ import RbpfModel.Model.Interp
 import RbpfModel.Model.Isa
 import RbpfModel.Model.Taint
 import RbpfModel.Model.EngineSem
+import RbpfModel.Model.Vm
 namespace Rbpf.Drive
 open Rbpf.Hex
 
@@ -107,22 +108,13 @@ def mkEnv (c : ExecCase) (prog : Bytes) : Env :=
     allowed := c.arange.map fun (i, lo, hi) => (wrap64 (c.extrabase.getD i 0) lo, wrap64 (c.extrabase.getD i 0) hi)
     usage := Interp.usageOf entries (c.calcT.map fun t => fun pc => t.getD (pc % t.size) 0) }
 
-/-- `LittleEndian::write_u64(&mut buf[off..], v)` -/
-def writeU64 (buf : Bytes) (off v : Nat) : Bytes :=
-  (List.range 8).foldl (fun b k => b.setIfInBounds (off + k) (BitVec.ofNat 8 (v >>> (8 * k)))) buf
-
-/-- the (mem, mbuff) pair each VM kind hands to the interpreter -/
+/-- the (mem, mbuff) pair each VM kind hands to the interpreter: `Vm.memOf` -/
 def mkMem (c : ExecCase) : Memory :=
   let stack : Region := ⟨c.stackbase, Array.replicate 512 0⟩
   let extra := (c.extra.zip c.extrabase).map fun (b, a) => (⟨a, b⟩ : Region)
-  if c.kind == "raw" then { mbuff := ⟨1, #[]⟩, mem := ⟨c.membase, c.mem⟩, stack, extra }
-  else if c.kind == "nodata" then { mbuff := ⟨1, #[]⟩, mem := ⟨1, #[]⟩, stack, extra }
-  else if c.kind == "fixed" then
-    let (d, e) := c.fixoff
-    let buf : Bytes := Array.replicate ((if d ≥ e then d else e) + 8) 0
-    let buf := writeU64 (writeU64 buf d c.membase) e (c.membase + c.mem.size)
-    { mbuff := ⟨c.fixedbase, buf⟩, mem := ⟨c.membase, c.mem⟩, stack, extra }
-  else { mbuff := ⟨c.mbuffbase, c.mbuff⟩, mem := ⟨c.membase, c.mem⟩, stack, extra }
+  let kind : Vm.Kind := if c.kind == "raw" then .raw else if c.kind == "nodata" then .noData else if c.kind == "fixed" then .fixed else .mbuff
+  let (d, e) := c.fixoff
+  Vm.memOf kind ⟨c.membase, c.mem⟩ ⟨c.mbuffbase, c.mbuff⟩ c.fixedbase (Array.replicate (Vm.fixedBufLen d e) 0) d e stack extra
 
 def detail (c : ExecCase) (s : State) : String :=
   let extraAll := s.mem.extra.foldl (fun acc r => acc ++ r.bytes) (#[] : Bytes)
